@@ -139,7 +139,7 @@ fn scenario(w: &mut World, ctx: &RunCtx, states: &mut Vec<u64>) -> Result<(), Vi
         w.nodes[2].cfg.peers.push(p);
     }
     if state == 1 {
-        w.nodes[0].cfg.peers.push(crate::util::addr_nice(x_addr).to_string());
+        w.nodes[0].cfg.peers.push(super::world::addr_text(x_addr));
     }
     for i in 0..n_nodes {
         let st = w.start_node(i);
@@ -162,6 +162,12 @@ fn scenario(w: &mut World, ctx: &RunCtx, states: &mut Vec<u64>) -> Result<(), Vi
         return Ok(());
     }
     // recorded genuine datagrams so far
+    if state == 1 {
+        let has = w.snapshot(0).map(|s| s.pending.iter().any(|(a, _)| *a == x_addr)).unwrap_or(false);
+        if has {
+            w.count("c08_pending_initiator_present");
+        }
+    }
     if state == 2 {
         // replay n1's ping from X: creates a pending responder entry at the victim
         let ping = w.wire.iter().find(|r| r.from_node == Some(1) && r.dst == w.nodes[0].addr && World::is_init_datagram(&r.data)).map(|r| (*r.data).clone());
@@ -453,7 +459,7 @@ impl Scenario for C08 {
     }
 
     fn expected_probes(&self) -> Vec<&'static str> {
-        vec!["c08_state_compared", "c08_pending_responder_created", "c08_liveness_checked", "c08_sent_random_large", "c08_sent_length_corrupted", "c08_sent_truncated"]
+        vec!["c08_state_compared", "c08_pending_responder_created", "c08_pending_initiator_present", "c08_liveness_checked", "c08_sent_random_large", "c08_sent_length_corrupted", "c08_sent_truncated"]
     }
 
     fn exhaustive(&self, _tier: Tier, runs: u64) -> bool {
